@@ -17,8 +17,8 @@ import (
 const listLen = 2
 
 type genState struct {
-	n  int // leaf counter
-	rt int // abstract object counter
+	n  int            // leaf counter
+	rt map[*tnode]int // per abstract node: how many objects were generated (alternates the implementers)
 }
 
 func num(s string) json.Number { return json.Number(s) }
@@ -58,8 +58,8 @@ func baselineValue(n *tnode, g *genState) any {
 		o := map[string]any{}
 		rt := n.typeName
 		if n.abstract {
-			rt = n.possible[g.rt%len(n.possible)]
-			g.rt++
+			rt = n.possible[g.rt[n]%len(n.possible)]
+			g.rt[n]++
 			o["__typename"] = rt // the planner asks the subgraph for it
 		}
 		for _, f := range n.fieldsFor(rt) {
@@ -77,7 +77,7 @@ func baselineValue(n *tnode, g *genState) any {
 }
 
 func baseline(tree *tnode) map[string]any {
-	return baselineValue(tree, &genState{}).(map[string]any)
+	return baselineValue(tree, &genState{rt: map[*tnode]int{}}).(map[string]any)
 }
 
 // Deviation is one local change of the payload.
@@ -198,6 +198,27 @@ func positions(n *tnode, v any, path []any, keyed bool, out *[]position) {
 
 var objectForScalar = map[string]any{"a": num("1")}
 
+// escAlphabet: string values (as they are AFTER JSON decoding of the subgraph
+// body; the body itself is valid JSON with the escapes \", \\, \n, \u0001 ...)
+// that must be escaped again wherever the resolver writes subgraph-supplied
+// text into the response: data leaves, __typename, error messages.
+var escAlphabet = []struct{ kind, v string }{
+	{"esc-quote", `a"b`},
+	{"esc-backslash", `a\b`},
+	{"esc-newline", "a\n\t\rb"},
+	{"esc-control", "a\u0001\u0000\u001fb"},
+	{"esc-multibyte", "\u00e9\u2713\U0001d11e\u2028<&>"},
+	{"esc-injection", `","k":"x","a":"x","x":"x","b":1,"z":"x`},
+}
+
+// escMixed: one string with all kinds of offenders, for positions where a
+// string is the wrong kind anyway (it then only travels into an error message).
+const escMixed = "a\"b\\c\n\u0001\u00e9\",\"k\":\"x"
+
+// singleOnly: escaping deviations are local by nature; they are enumerated as
+// single deviations in both tiers and do not take part in deviation pairs.
+func (d Deviation) singleOnly() bool { return strings.HasPrefix(d.Kind, "esc-") }
+
 // menu lists the deviations applicable at one position, simplest first.
 func menu(p position) []Deviation {
 	var out []Deviation
@@ -211,6 +232,9 @@ func menu(p position) []Deviation {
 		add("null-typename", nil)
 		add("unknown-typename", "ZZ")
 		add("number-for-typename", num("5"))
+		for _, e := range escAlphabet {
+			add(e.kind+"-typename", e.v) // an unknown type name (or, where the plan does not restrict it, a rendered one)
+		}
 		if o.abstract {
 			for _, t := range o.possible {
 				if t != p.current {
@@ -232,35 +256,50 @@ func menu(p position) []Deviation {
 			add("number-for-string", num("5"))
 			add("boolean-for-string", true)
 			add("object-for-scalar", objectForScalar)
+			for _, e := range escAlphabet {
+				add(e.kind, e.v) // well-typed
+			}
 		case "Int":
 			add("string-for-number", "5")
 			add("float-for-int", num("1.5"))
 			add("boolean-for-number", true)
 			add("object-for-scalar", objectForScalar)
 			amb("int-beyond-32-bit", num("3000000000"), "Int: the table only demands an integral number, the spec a 32-bit one")
+			add("esc-mixed-for-number", escMixed)
 		case "Float":
 			add("string-for-number", "1.5")
 			add("int-for-float", num("2")) // well-typed
 			add("boolean-for-number", true)
 			add("object-for-scalar", objectForScalar)
+			add("esc-mixed-for-number", escMixed)
 		case "Boolean":
 			add("string-for-boolean", "true")
 			add("number-for-boolean", num("1"))
 			add("object-for-scalar", objectForScalar)
+			add("esc-mixed-for-boolean", escMixed)
 		case "ID":
 			add("int-for-id", num("7")) // well-typed
 			add("boolean-for-id", true)
 			add("object-for-scalar", objectForScalar)
 			amb("float-for-id", num("1.5"), "ID: the table accepts string or integer and is silent about other numbers")
+			for _, e := range escAlphabet {
+				add(e.kind, e.v) // well-typed
+			}
 		case "E":
 			add("invalid-enum-value", "C")
 			add("inaccessible-enum-value", "H")
 			add("number-for-enum", num("5"))
 			add("object-for-scalar", objectForScalar)
+			add("esc-mixed-enum-value", escMixed) // invalid value, echoed in the error message
+			add("esc-injection-enum-value", escAlphabet[5].v)
 		case "J": // custom scalar: every JSON value is well-typed
 			add("number-for-custom-scalar", num("5"))
 			add("object-for-custom-scalar", objectForScalar)
 			add("array-for-custom-scalar", []any{num("1")})
+			for _, e := range escAlphabet {
+				add(e.kind, e.v) // well-typed
+			}
+			add("esc-object-for-custom-scalar", map[string]any{"k\"q\\": escMixed}) // well-typed
 		}
 		if n.scalar != "J" {
 			add("array-for-scalar", []any{num("1")})
@@ -273,6 +312,22 @@ func menu(p position) []Deviation {
 		add("array-for-object", []any{num("1")})
 		add("scalar-for-object", "x")
 		add("empty-object", map[string]any{})
+	}
+	return out
+}
+
+// singlesOf: a plan without PossibleTypes is only exercised where it differs,
+// i.e. with the string deviations of the selected __typename keys.
+func (s Shape) singlesOf(tree *tnode, base map[string]any) []Deviation {
+	all := singles(tree, base)
+	if !s.Strip {
+		return all
+	}
+	var out []Deviation
+	for _, d := range all {
+		if _, isString := d.Value.(string); isString && !d.Absent && strings.HasSuffix(d.Kind, "-typename") {
+			out = append(out, d)
+		}
 	}
 	return out
 }
